@@ -1011,7 +1011,8 @@ def uda_producer_turned_injector(case, wn):
 
 
 def wlist_reentry(case):
-    """does some well re-enter a well list it was a member of and left (DEL, MOV away, NEW without it) earlier?"""
+    """does some well re-enter a well list it was a member of and left (DEL, MOV away, NEW without it) earlier, or is it
+    deleted again from a list it has already left?  (both make WListManager's per-well list count go wrong)"""
     member, left = {}, set()
     for b in case.get("blocks", []):
         for k in b["kws"]:
@@ -1040,6 +1041,8 @@ def wlist_reentry(case):
                         if w in cur:
                             cur.discard(w)
                             left.add((w, ln))
+                        elif (w, ln) in left:
+                            return True         # deleted a second time: the stale entry is counted down again
                 elif op == "MOV":
                     for w in ws:
                         for l2, mem in member.items():
